@@ -203,7 +203,13 @@ const STEP_TIMEOUT: Duration = Duration::from_secs(10);
 impl Case {
     pub fn new(init: Init) -> Case {
         let reg = Registry::new(4096);
-        let (source, track) = rustrtc::media::track::verif_sample_track_with_start(MediaKind::Audio, init.cap, init.start);
+        // the plain public constructor unless the run needs the ring indices to start elsewhere
+        let (source, track) = if init.start == 0 {
+            let (s, t, _fb) = rustrtc::media::track::sample_track(MediaKind::Audio, init.cap);
+            (s, t)
+        } else {
+            rustrtc::media::track::verif_sample_track_with_start(MediaKind::Audio, init.cap, init.start)
+        };
         let push_lock = source.verif_push_lock();
         let sh = Arc::new(Shared { track, reg, mailbox: Mutex::new((0..MAX_PROD).map(|_| None).collect()),
             woken: AtomicBool::new(false), received: Mutex::new(vec![]) });
@@ -307,7 +313,8 @@ impl Case {
     pub fn all_idle(&self) -> bool {
         (0..MAX_PROD).all(|i| self.state(Tid::Prod(i)) == WState::Idle) && self.state(Tid::Cons) == WState::Idle && self.stopper_idle()
     }
-    pub fn queue_len(&self) -> usize { self.sh.track.verif_queue().len() }
+    /// number of queued samples from the raw indices (`len()` saturates across the index wrap-around)
+    pub fn queue_len(&self) -> usize { let (h, t) = self.sh.track.verif_queue().verif_indices(); t.wrapping_sub(h) }
     pub fn flags(&self) -> (bool, bool) { self.sh.track.verif_flags() }
     pub fn received(&self) -> Vec<Result<(u64, u64), String>> { self.sh.received.lock().unwrap().clone() }
 
